@@ -275,7 +275,7 @@ theorem unbondFarm_ptrans {s s' : St} {c : Nat} {pay : Pay} {o : Out}
   refine ⟨0, 0, by simp, Or.inr (Or.inr (Or.inr (Or.inl ⟨c, [pay], hold0, List.mem_dedup.mpr hc, hd, ?_, rfl⟩)))⟩
   intro p hp
   rw [List.mem_singleton.mp hp]
-  exact unbondOf_posOf hu
+  exact ⟨unlock, hu⟩
 
 theorem transfer_ptrans {s s' : St} {src dst : Nat} {pay : Pay} {o : Out}
     (hs : src ∈ s.accts) (h : transfer s src dst pay = some (s', o)) : PTrans (pv s) (pv s') := by
@@ -493,6 +493,63 @@ theorem run_dsc (ops : List Op) {s : St} : (run s ops).dsc = s.dsc := by
       obtain ⟨s1, o⟩ := r
       exact (ih (s := s1)).trans (step_ptrans hst).const.2.1
 
+/-! ### the unbond ledger of a state -/
+
+/-- the ghost ledger `unbondOut` equals the outstanding unbond-token units -/
+def UnbInv (s : St) : Prop := UnbOK (pv s)
+
+theorem unbInv_init (epoch block dsc maxApr minUnbond perBlock : Nat) (accts wl : List Nat) :
+    UnbInv (init epoch block dsc maxApr minUnbond perBlock accts wl) := by
+  have h : wsum (pv (init epoch block dsc maxApr minUnbond perBlock accts wl)).hold
+      (pv (init epoch block dsc maxApr minUnbond perBlock accts wl)).accts
+      ((pv (init epoch block dsc maxApr minUnbond perBlock accts wl)).nonce + 1)
+      (unbW (pv (init epoch block dsc maxApr minUnbond perBlock accts wl)).md) = 0 :=
+    wsum_hold_zero (fun _ _ => rfl)
+  show (0 : Int) = ((wsum _ _ _ _ : Nat) : Int)
+  rw [h]
+  rfl
+
+theorem step_unbInv {s s' : St} {op : Op} {o : Out} (hI : PosInv s) (hU : UnbInv s)
+    (h : step s op = some (s', o)) : UnbInv s' :=
+  UnbOK.trans hI hU (step_ptrans h)
+
+theorem run_unbInv (ops : List Op) {s : St} (hI : PosInv s) (hU : UnbInv s) : UnbInv (run s ops) := by
+  induction ops generalizing s with
+  | nil => simpa [run] using hU
+  | cons op ops ih =>
+    simp only [run, List.foldl_cons]
+    cases hst : step s op with
+    | none => exact ih hI hU
+    | some r =>
+      obtain ⟨s1, o⟩ := r
+      exact ih (step_posInv hI hst) (step_unbInv hI hU hst)
+
+theorem wsum_unbW_explicit (hold : Nat → Nat → Nat) (accts : List Nat) (N : Nat) (md : Nat → Option Meta) :
+    wsum hold accts N (unbW md) =
+      ((List.range N).map fun n =>
+        match md n with
+        | some (.unbond _) => (accts.map fun a => hold a n).sum
+        | _ => 0).sum := by
+  simp only [wsum, usum, outst]
+  congr 1
+  apply List.map_congr_left
+  intro n _
+  simp only [unbW, unbondOf]
+  cases md n with
+  | none => simp
+  | some m => cases m <;> simp
+
+/-- units of all outstanding unbond tokens -/
+def unbondUnits (s : St) : Nat :=
+  ((List.range (s.nonce + 1)).map fun n =>
+    match s.md n with
+    | some (.unbond _) => (s.accts.dedup.map fun a => s.hold a n).sum
+    | _ => 0).sum
+
+theorem UnbInv.explicit {s : St} (h : UnbInv s) : s.unbondOut = (unbondUnits s : Nat) := by
+  unfold unbondUnits
+  rw [← wsum_unbW_explicit]; exact h
+
 /-! ### the saturating subtractions of the totals never saturate -/
 
 /-- the recorded owner's total contains every unit the caller pays in -/
@@ -548,7 +605,7 @@ theorem claimCore_foreign {s s' : St} {c : Nat} {pay : Pay} {o : Out} {a : Attrs
   simp only [checkAndUpdate, ha, Option.bind_eq_bind, Option.bind_some, if_neg hne,
     Option.some.injEq] at hk
   subst hk
-  refine ⟨hcov, ?_, ?_, fun u h1 h2 => ?_, ⟨_, by rw [hmd, upd_same], rfl, t3⟩⟩
+  refine ⟨hcov, ?_, ?_, fun u h1 h2 => ?_, ⟨⟨s.rps + inc, tok.compounded, tok.amount, c⟩, by rw [hmd, upd_same]; rfl, rfl, t3⟩⟩
   · rw [hut, upd_other _ _ hne]; simp only [decreaseUT, upd_same]; split <;> omega
   · rw [hut, upd_same]; simp only [decreaseUT, upd_other _ _ (fun e : c = a.owner => hne e.symm)]
   · rw [hut, upd_other _ _ h1]; simp only [decreaseUT, upd_other _ _ h2]
